@@ -144,7 +144,7 @@ def _enum(acc, shard, nshards, seed, tier, labels="ab", length=4):
                       cl if idx % 31 == 0 else (), distinct=True)
 
 
-LABEL_POOL = ["example", "EXAMPLE", "Example", "com", "COM", "co", "uk", "é", "xn--9ca", "XN--9CA", "www", "a", "b",
+LABEL_POOL = ["20minutes", "2019", "3D", "example", "EXAMPLE", "Example", "com", "COM", "co", "uk", "é", "xn--9ca", "XN--9CA", "www", "a", "b",
               "münchen", "xn--mnchen-3ya", "Xn--Mnchen-3ya", "fr", "blog", "m", "x-y", "中文", "xn--fiq228c"]
 
 
